@@ -74,8 +74,13 @@ pub fn exec_kahn(input: &Value) -> (Value, Value) {
         node_type: kind_of(n),
     };
     let mut r = DependencyResolver::new();
-    for n in strs(input, "nodes") {
-        r.add_node(mk(&n));
+    // the order in which nodes and edges are registered is the caller's business: nodes first (default), edges first, or
+    // every node again after the edges
+    let order = input.get("order").and_then(|x| x.as_str()).unwrap_or("nodes_first").to_string();
+    if order != "edges_first" {
+        for n in strs(input, "nodes") {
+            r.add_node(mk(&n));
+        }
     }
     for e in input["edges"].as_array().cloned().unwrap_or_default() {
         r.add_dependency(Dependency {
@@ -89,6 +94,11 @@ pub fn exec_kahn(input: &Value) -> (Value, Value) {
                 _ => DependencyType::Generic,
             },
         });
+    }
+    if order == "edges_first" || order == "nodes_twice" {
+        for n in strs(input, "nodes") {
+            r.add_node(mk(&n));
+        }
     }
     let imp = guarded(|| match r.resolve_build_order() {
         Ok(v) => json!({"ok": v.iter().map(|n| n.path.trim_start_matches("src/").trim_end_matches(".rs").to_string()).collect::<Vec<_>>()}),
@@ -197,6 +207,28 @@ pub fn run(out: &mut Out, tier: &str, rng: &mut Rng) {
             }
         }
     }
+    // long chains and deep trees (no bound on the depth of a dependency path): 30, 70, 100 types
+    for &len in &[30usize, 70, 100] {
+        let graph: Vec<Value> = (0..len - 1).map(|i| json!([format!("L{:03}", i), [format!("L{:03}", i + 1)]])).collect();
+        out.case("topo", json!({"graph": graph, "request": ["L000"]}), json!({"n": len, "tag": "chain"}));
+        let rev: Vec<Value> = (1..len).map(|i| json!([format!("L{:03}", i), [format!("L{:03}", i - 1)]])).collect();
+        out.case("topo", json!({"graph": rev, "request": [format!("L{:03}", len - 1), "L000"]}), json!({"n": len, "tag": "chain"}));
+        let nodes: Vec<String> = (0..len).map(|i| format!("L{:03}", i)).collect();
+        let es: Vec<Value> = (0..len - 1).map(|i| json!([format!("L{:03}", i), format!("L{:03}", i + 1)])).collect();
+        out.case("kahn", json!({"nodes": nodes, "edges": es, "order": "edges_first"}), json!({"n": len, "tag": "chain"}));
+        out.case("kahn", json!({"nodes": nodes, "edges": es}), json!({"n": len, "tag": "chain"}));
+    }
+    // exhaustive on 2 and 3 nodes under the other registration orders
+    for n in 2..=3usize {
+        for code in 0u64..(1u64 << (n * n)) {
+            let edges: Vec<(usize, usize)> = (0..n).flat_map(|i| (0..n).filter(move |j| (code >> (i * n + j)) & 1 == 1).map(move |j| (i, j))).collect();
+            let nodes: Vec<String> = (0..n).map(name).collect();
+            let es: Vec<Value> = edges.iter().map(|&(f, t)| json!([name(f), name(t)])).collect();
+            for order in ["edges_first", "nodes_twice"] {
+                out.case("kahn", json!({"nodes": nodes, "edges": es, "order": order}), json!({"n": n, "tag": "exh-order"}));
+            }
+        }
+    }
     // random graphs up to 12 nodes, dependencies on undefined names, multi-edges for Kahn
     let nrand = if tier == "thorough" { 40000 } else { 4000 };
     for k in 0..nrand {
@@ -232,6 +264,11 @@ pub fn run(out: &mut Out, tier: &str, rng: &mut Rng) {
             edges.swap(i, j);
         }
         kahn_case(out, n, &edges, "rand");
+        if k % 4 == 1 {
+            let nodes: Vec<String> = (0..n).map(name).collect();
+            let es: Vec<Value> = edges.iter().map(|&(f, t)| json!([name(f), name(t)])).collect();
+            out.case("kahn", json!({"nodes": nodes, "edges": es, "order": if k % 8 == 1 { "edges_first" } else { "nodes_twice" }}), json!({"n": n, "tag": "rand-order"}));
+        }
         if k % 3 == 0 {
             // two (or three) distinct nodes showing the same name
             let nodes: Vec<String> = (0..n).map(name).collect();
